@@ -24,6 +24,18 @@ type gateConn struct {
 	w *pcWorld
 }
 
+// Closed is what Pool.Put asks first; with the gate armed the call waits there (the connection is "on its way back"
+// for a while).
+func (g *gateConn) Closed() <-chan struct{} {
+	g.w.mu.Lock()
+	gate := g.w.putGate
+	g.w.mu.Unlock()
+	if gate != nil {
+		<-gate
+	}
+	return g.fconn.Closed()
+}
+
 type pcWorld struct {
 	mu      sync.Mutex
 	conns   []*gateConn
@@ -34,6 +46,9 @@ type pcWorld struct {
 	streams []*fakeStream
 	// failNext: the next NewStream on a connection fails (the connection itself stays intact)
 	failNext bool
+	// putGate, when set, holds every Pool.Put (inside its first question to the connection) until it is closed
+	putGate chan struct{}
+	wrapped []drpc.Stream // what Pool.Get(...).NewStream returned, in order
 }
 
 func (g *gateConn) Invoke(ctx context.Context, rpc string, enc drpc.Encoding, in, out drpc.Message) error {
@@ -121,7 +136,7 @@ func runPoolConn(c pcCase) (r pbt.Result) {
 	var mu sync.Mutex
 	var errsSeen []error
 	overlap := false
-	failedStreams := 0
+	failedStreams, slowPuts := 0, 0
 	for _, op := range c.Ops {
 		key := keys[op.Key%len(keys)]
 		switch op.Kind {
@@ -143,6 +158,9 @@ func runPoolConn(c pcCase) (r pbt.Result) {
 				fail("NewStream through the pool failed")
 				return
 			}
+			w.mu.Lock()
+			w.wrapped = append(w.wrapped, st)
+			w.mu.Unlock()
 		case "failstream":
 			// a stream that cannot be opened: the connection it was tried on goes back to the pool
 			w.mu.Lock()
@@ -154,6 +172,49 @@ func runPoolConn(c pcCase) (r pbt.Result) {
 				return
 			}
 			failedStreams++
+		case "endstream_slowput":
+			// the stream ends while returning its connection to the pool takes a while: the wrapped stream's Done
+			// channel must stay open until the connection is back ("callers can be sure that a connection will be
+			// reused if possible")
+			w.mu.Lock()
+			var st *fakeStream
+			var wr drpc.Stream
+			if len(w.streams) > 0 && len(w.streams) == len(w.wrapped) {
+				i := op.N % len(w.streams)
+				st, wr = w.streams[i], w.wrapped[i]
+			}
+			gate := make(chan struct{})
+			if st != nil {
+				w.putGate = gate
+			}
+			w.mu.Unlock()
+			if st != nil {
+				already := false
+				select {
+				case <-wr.Context().Done():
+					already = true
+				default:
+				}
+				_ = st.Close()
+				sim.WaitQuiescent()
+				if !already {
+					select {
+					case <-wr.Context().Done():
+						w.mu.Lock()
+						w.putGate = nil
+						w.mu.Unlock()
+						close(gate)
+						fail("the pooled stream's Done channel closed before its connection was back in the pool")
+						return
+					default:
+					}
+				}
+				w.mu.Lock()
+				w.putGate = nil
+				w.mu.Unlock()
+				close(gate)
+				slowPuts++
+			}
 		case "endstream":
 			w.mu.Lock()
 			var st *fakeStream
@@ -254,6 +315,9 @@ func runPoolConn(c pcCase) (r pbt.Result) {
 	if failedStreams > 0 {
 		r.Label("stream_could_not_be_opened")
 	}
+	if slowPuts > 0 {
+		r.Label("stream_ended_with_a_slow_return_to_the_pool")
+	}
 	r.Label(fmt.Sprintf("dialed_%d", minI(n, 3)))
 	r.NonTrivial = overlap && n >= 2
 	r.Key = fmt.Sprintf("%+v", c)
@@ -271,7 +335,7 @@ func TestC15PoolConn(t *testing.T) {
 	gen := func(t *rapid.T) pcCase {
 		return pcCase{Capacity: rapid.SampledFrom([]int{0, 1, 2, 3}).Draw(t, "cap"), KeyCapacity: rapid.SampledFrom([]int{0, 1, 2}).Draw(t, "keycap"),
 			Ops: rapid.SliceOfN(rapid.Custom(func(t *rapid.T) pcOp {
-				return pcOp{Kind: rapid.SampledFrom([]string{"invoke", "invoke", "invoke", "stream", "endstream", "release", "release", "failstream"}).Draw(t, "kind"), Key: rapid.IntRange(0, 1).Draw(t, "key"), N: rapid.IntRange(0, 5).Draw(t, "n")}
+				return pcOp{Kind: rapid.SampledFrom([]string{"invoke", "invoke", "invoke", "stream", "endstream", "release", "release", "failstream", "endstream_slowput"}).Draw(t, "kind"), Key: rapid.IntRange(0, 1).Draw(t, "key"), N: rapid.IntRange(0, 5).Draw(t, "n")}
 			}), 1, 16).Draw(t, "ops")}
 	}
 	pbt.Check(t, pbt.Prop[pcCase]{ID: "C15", Name: "poolconn", Gen: gen, Run: runPoolConn})
